@@ -120,6 +120,14 @@ def main(argv):
             break
         rng = gen.case_rng(seed, prop, 0, i)
         case = mod.make_case(rng, i, tier)
+        sck = getattr(mod, "SCALE", None)
+        severy = getattr(mod, "SCALE_EVERY", 41)     # a prime: large cases cycle through every sub-family a check selects by i % k
+        if sck and i % severy == severy // 2 and isinstance(case, dict) and hasattr(mod, "scale_case"):
+            # every fortieth case is a LARGE one (hundreds to thousands of notes, long rests, ticks beyond 2**16, long argument
+            # lists): the check itself says how its case is blown up
+            mod.scale_case(case, i)
+            case["scale"] = True
+            LOG.n("large_cases")
         ex = getattr(mod, "EXTREMES", None)
         if ex and i % 6 == 5 and isinstance(case, dict) and case.get(ex) is not None:
             # every sixth case is re-labelled to the ends of the legal ranges (channel 15, pitches 0 / 127, velocities 1 / 127)
